@@ -105,6 +105,8 @@ C17Holds(k, r) ==
      THEN /\ Len(hc) >= 1 /\ \A i \in 1..Len(hc) : hc[i].id = e.id
           \* ... and the error's own methods render nothing unless the hook asks for them
           /\ \A i \in 1..Len(r.calls) : r.calls[i].m \in {"Hook", "Error"}
+     \* a Stringer that panics with an error VALUE: the report prints that payload through method dispatch, i.e. the hook
+     ELSE IF root[1] = "stpanerr" THEN \A i \in 1..Len(hc) : hc[i].id = e.pan[1].id
      ELSE \A i \in 1..Len(hc) : FALSE
 
 (***************************************************************************)
